@@ -270,6 +270,8 @@ theorem afterS_tail (f : List Var) (vs : VStack) (s : Stmt) : ∃ f', afterS (f 
   | ifs _ _ _ => exact ⟨f, rfl⟩
   | while_ _ _ => exact ⟨f, rfl⟩
   | forRange _ _ _ _ _ _ => exact ⟨f, rfl⟩
+  | brk => exact ⟨f, rfl⟩
+  | cont => exact ⟨f, rfl⟩
 
 theorem afterB_tail : ∀ (b : Block) (f : List Var) (vs : VStack), ∃ f', afterB (f :: vs) b = f' :: vs
   | .nil, f, _ => ⟨f, rfl⟩
@@ -277,6 +279,24 @@ theorem afterB_tail : ∀ (b : Block) (f : List Var) (vs : VStack), ∃ f', afte
     obtain ⟨f1, h1⟩ := afterS_tail f vs s
     simp only [afterB, h1]
     exact afterB_tail rest f1 vs
+
+/-- statements only ever change the innermost list of visible names -/
+theorem afterS_tl (vs : VStack) (s : Stmt) : (afterS vs s).tail = vs.tail := by
+  cases vs with
+  | nil =>
+    cases s <;> simp only [afterS] <;> try rfl
+  | cons f vs => obtain ⟨f', h⟩ := afterS_tail f vs s; rw [h]; rfl
+
+theorem afterB_tl : ∀ (b : Block) (vs : VStack), (afterB vs b).tail = vs.tail
+  | .nil, _ => rfl
+  | .cons s rest, vs => by simp only [afterB]; rw [afterB_tl rest, afterS_tl]
+
+/-- the store an outcome carries on (none after `return`) -/
+def Outcome.st {S : Type} : Outcome S → Option S
+  | .normal s => some s
+  | .broke s => some s
+  | .continued s => some s
+  | .returned _ => none
 
 /-! ## for loops: what the body leaves alone -/
 
@@ -309,40 +329,43 @@ theorem exprOK_not_reads (lits : Lits) {vs : VStack} {e : Node} {v : Var} (h : e
   intro hmem
   rw [h.2 v hmem] at hv; cases hv
 
-/-- Python: executing statements changes only the names they may write -/
+/-- Python: executing statements changes only the names they may write (whatever way the statements are left: normally, by
+    `break` or by `continue`) -/
 theorem py_preserve (lits : Lits) : ∀ fuel,
-    (∀ σ b σ', pyExec lits fuel σ b = .ok (.normal σ') → ∀ x, x ∉ writes b → σ'.get x = σ.get x) ∧
-    (∀ σ s σ', pyStmt lits fuel σ s = .ok (.normal σ') → ∀ x, x ∉ writes (.cons s .nil) → σ'.get x = σ.get x) ∧
-    (∀ σ arms els σ', pyArms lits fuel σ arms els = .ok (.normal σ') → ∀ x, x ∉ writesArms arms ++ writes els → σ'.get x = σ.get x) ∧
-    (∀ σ v cur stop step body σ', pyFor lits fuel σ v cur stop step body = .ok (.normal σ') → ∀ x, x ∉ v :: writes body → σ'.get x = σ.get x) := by
+    (∀ σ b o σ', pyExec lits fuel σ b = .ok o → o.st = some σ' → ∀ x, x ∉ writes b → σ'.get x = σ.get x) ∧
+    (∀ σ s o σ', pyStmt lits fuel σ s = .ok o → o.st = some σ' → ∀ x, x ∉ writes (.cons s .nil) → σ'.get x = σ.get x) ∧
+    (∀ σ arms els o σ', pyArms lits fuel σ arms els = .ok o → o.st = some σ' → ∀ x, x ∉ writesArms arms ++ writes els → σ'.get x = σ.get x) ∧
+    (∀ σ v cur stop step body o σ', pyFor lits fuel σ v cur stop step body = .ok o → o.st = some σ' → ∀ x, x ∉ v :: writes body → σ'.get x = σ.get x) := by
   intro fuel
   induction fuel with
   | zero =>
     refine ⟨?_, ?_, ?_, ?_⟩
-    · intro σ b σ' h; simp [pyExec] at h
-    · intro σ s σ' h; simp [pyStmt] at h
-    · intro σ arms els σ' h; simp [pyArms] at h
-    · intro σ v cur stop step body σ' h; simp [pyFor] at h
+    · intro σ b o σ' h; simp [pyExec] at h
+    · intro σ s o σ' h; simp [pyStmt] at h
+    · intro σ arms els o σ' h; simp [pyArms] at h
+    · intro σ v cur stop step body o σ' h; simp [pyFor] at h
   | succ fuel ih =>
     obtain ⟨ihB, ihS, ihA, ihF⟩ := ih
     refine ⟨?_, ?_, ?_, ?_⟩
-    · intro σ b σ' h x hx
+    · intro σ b o σ' h hst x hx
       cases b with
-      | nil => simp only [pyExec] at h; cases h; rfl
+      | nil => simp only [pyExec] at h; cases h; cases hst; rfl
       | cons s rest =>
         simp only [pyExec] at h
+        have hx1 : x ∉ writes (.cons s .nil) ∧ x ∉ writes rest := by
+          cases s <;> simp_all [writes]
         cases hs : pyStmt lits fuel σ s with
         | error er => rw [hs] at h; cases h
-        | ok o =>
+        | ok o1 =>
           rw [hs] at h
-          cases o with
-          | returned r => cases h
+          cases o1 with
+          | returned r => cases h; cases hst
           | normal σ1 =>
             simp only at h
-            have hx1 : x ∉ writes (.cons s .nil) ∧ x ∉ writes rest := by
-              cases s <;> simp_all [writes]
-            rw [ihB σ1 rest σ' h x hx1.2, ihS σ s σ1 hs x hx1.1]
-    · intro σ s σ' h x hx
+            rw [ihB σ1 rest o σ' h hst x hx1.2, ihS σ s _ σ1 hs rfl x hx1.1]
+          | broke σ1 => cases h; cases hst; exact ihS σ s _ _ hs rfl x hx1.1
+          | continued σ1 => cases h; cases hst; exact ihS σ s _ _ hs rfl x hx1.1
+    · intro σ s o σ' h hst x hx
       cases s with
       | assign v name e =>
         simp only [pyStmt] at h
@@ -353,25 +376,27 @@ theorem py_preserve (lits : Lits) : ∀ fuel,
           cases val with
           | bool b => cases h
           | int i =>
-            cases h
+            cases h; cases hst
             have : x ≠ v := by simp [writes] at hx; exact hx
             exact Store.get_put_ne σ v x i this
       | ret e =>
         simp only [pyStmt] at h
         cases he : pyExpr' lits σ e <;> rw [he] at h <;> cases h
+        cases hst
       | aug v name op e =>
         simp only [pyStmt] at h
         have hne : x ≠ v := by simp [writes] at hx; exact hx
         split at h
         · split at h
-          · cases h; exact Store.get_put_ne σ v x _ hne
+          · cases h; cases hst; exact Store.get_put_ne σ v x _ hne
           · cases h
         · cases h
       | ifs arms he els =>
         simp only [pyStmt] at h
-        exact ihA σ arms els σ' h x (by simpa [writes] using hx)
+        exact ihA σ arms els o σ' h hst x (by simpa [writes] using hx)
       | while_ c body =>
         simp only [pyStmt] at h
+        have hxb : x ∉ writes body := by simpa [writes] using hx
         cases hc : pyExpr' lits σ c with
         | error er => rw [hc] at h; cases h
         | ok val =>
@@ -380,7 +405,7 @@ theorem py_preserve (lits : Lits) : ∀ fuel,
           | int i => cases h
           | bool b =>
             cases b with
-            | false => cases h; rfl
+            | false => cases h; cases hst; rfl
             | true =>
               simp only at h
               cases hb : pyExec lits fuel σ body with
@@ -388,11 +413,14 @@ theorem py_preserve (lits : Lits) : ∀ fuel,
               | ok ob =>
                 rw [hb] at h
                 cases ob with
-                | returned r => cases h
+                | returned r => cases h; cases hst
                 | normal σ1 =>
                   simp only at h
-                  have hxb : x ∉ writes body := by simpa [writes] using hx
-                  rw [ihS σ1 (.while_ c body) σ' h x hx, ihB σ body σ1 hb x hxb]
+                  rw [ihS σ1 (.while_ c body) o σ' h hst x hx, ihB σ body _ σ1 hb rfl x hxb]
+                | continued σ1 =>
+                  simp only at h
+                  rw [ihS σ1 (.while_ c body) o σ' h hst x hx, ihB σ body _ σ1 hb rfl x hxb]
+                | broke σ1 => cases h; cases hst; exact ihB σ body _ _ hb rfl x hxb
       | forRange v name b0 s0 t0 body =>
         simp only [pyStmt] at h
         cases hb : pyExpr' lits σ b0 with
@@ -408,9 +436,11 @@ theorem py_preserve (lits : Lits) : ∀ fuel,
               cases vb <;> cases vs0 <;> cases vt <;> try (cases h)
               simp only at h
               split at h
-              · exact ihF σ v _ _ _ body σ' h x (by simpa [writes] using hx)
+              · exact ihF σ v _ _ _ body o σ' h hst x (by simpa [writes] using hx)
               · cases h
-    · intro σ arms els σ' h x hx
+      | brk => simp only [pyStmt] at h; cases h; cases hst; rfl
+      | cont => simp only [pyStmt] at h; cases h; cases hst; rfl
+    · intro σ arms els o σ' h hst x hx
       cases arms with
       | one c b =>
         simp only [pyArms] at h
@@ -423,8 +453,8 @@ theorem py_preserve (lits : Lits) : ∀ fuel,
           | bool bb =>
             simp only [writesArms, List.mem_append, not_or] at hx
             cases bb with
-            | true => exact ihB σ b σ' h x hx.1
-            | false => exact ihB σ els σ' h x hx.2
+            | true => exact ihB σ b o σ' h hst x hx.1
+            | false => exact ihB σ els o σ' h hst x hx.2
       | more c b rest =>
         simp only [pyArms] at h
         cases hc : pyExpr' lits σ c with
@@ -436,9 +466,9 @@ theorem py_preserve (lits : Lits) : ∀ fuel,
           | bool bb =>
             simp only [writesArms, List.mem_append, not_or] at hx
             cases bb with
-            | true => exact ihB σ b σ' h x hx.1.1
-            | false => exact ihA σ rest els σ' h x (by simp [hx.1.2, hx.2])
-    · intro σ v cur stop step body σ' h x hx
+            | true => exact ihB σ b o σ' h hst x hx.1.1
+            | false => exact ihA σ rest els o σ' h hst x (by simp [hx.1.2, hx.2])
+    · intro σ v cur stop step body o σ' h hst x hx
       simp only [pyFor] at h
       simp only [List.mem_cons, not_or] at hx
       split at h
@@ -448,13 +478,21 @@ theorem py_preserve (lits : Lits) : ∀ fuel,
           | ok ob =>
             rw [hb] at h
             cases ob with
-            | returned r => cases h
+            | returned r => cases h; cases hst
             | normal σ1 =>
               simp only at h
-              rw [ihF σ1 v _ stop step body σ' h x (by simp [hx.1, hx.2]), ihB _ body σ1 hb x hx.2]
+              rw [ihF σ1 v _ stop step body o σ' h hst x (by simp [hx.1, hx.2]), ihB _ body _ σ1 hb rfl x hx.2]
+              exact Store.get_put_ne σ v x cur hx.1
+            | continued σ1 =>
+              simp only at h
+              rw [ihF σ1 v _ stop step body o σ' h hst x (by simp [hx.1, hx.2]), ihB _ body _ σ1 hb rfl x hx.2]
+              exact Store.get_put_ne σ v x cur hx.1
+            | broke σ1 =>
+              cases h; cases hst
+              rw [ihB _ body _ _ hb rfl x hx.2]
               exact Store.get_put_ne σ v x cur hx.1
         · cases h
-      · cases h; rfl
+      · cases h; cases hst; rfl
 
 /-! ## the loop test: the pasted text is the operator node when no guard is due -/
 
@@ -497,11 +535,39 @@ theorem pyCond (lits : Lits) {σ : Store} {v : Var} {name : Str} {s0 : Node} {cu
     exact decide_eq_decide.mpr Iff.rfl
   · cases hs
 
-/-- outcomes correspond: same returned value, or stores in the invariant at the resulting stack of visible names -/
+/-- outcomes correspond: same returned value, or stores in the invariant at the resulting stack of visible names; a `break` /
+    `continue` on its way out of the current block: in the invariant at SOME innermost list of names over the same enclosing blocks -/
 def RelOut (vs' : VStack) : Outcome Store → Outcome Frames → Prop
   | .normal σ', .normal fs' => Inv vs' σ' fs'
   | .returned a, .returned b => a = b
+  | .broke σ', .broke fs' => ∃ vs'', vs''.tail = vs'.tail ∧ Inv vs'' σ' fs'
+  | .continued σ', .continued fs' => ∃ vs'', vs''.tail = vs'.tail ∧ Inv vs'' σ' fs'
   | _, _ => False
+
+/-- after the closing brace: exactly the enclosing stack again, whichever way the block was left -/
+def RelOutX (vs : VStack) : Outcome Store → Outcome Frames → Prop
+  | .normal σ', .normal fs' => Inv vs σ' fs'
+  | .returned a, .returned b => a = b
+  | .broke σ', .broke fs' => Inv vs σ' fs'
+  | .continued σ', .continued fs' => Inv vs σ' fs'
+  | _, _ => False
+
+theorem RelOutX.weaken {vs : VStack} {o : Outcome Store} {o' : Outcome Frames} (h : RelOutX vs o o') : RelOut vs o o' := by
+  cases o <;> cases o' <;> first | exact h | exact ⟨vs, rfl, h⟩
+
+theorem inv_pop_tail {f' : List Var} {vs vs'' : VStack} {σ : Store} {fs : Frames} (ht : vs''.tail = (f' :: vs).tail)
+    (h : Inv vs'' σ fs) : Inv vs σ fs.tail := by
+  cases vs'' with
+  | nil =>
+    simp only [List.tail_nil, List.tail_cons] at ht
+    subst ht
+    have hs := h.shape
+    cases hs
+    exact h
+  | cons f t =>
+    simp only [List.tail_cons] at ht
+    subst ht
+    exact Inv.pop h
 
 theorem shape_cons_inv {f : List Var} {vs : VStack} {fs : Frames} (h : Shape (f :: vs) fs) :
     ∃ st fs', fs = st :: fs' ∧ frameOK f st ∧ Shape vs fs' := by
@@ -541,7 +607,7 @@ theorem block_step (lits : Lits) {fuel : Nat} {vs : VStack} {σ : Store} {fs : F
     (ih : ∀ vs σ fs blk out, scopeOK lits vs blk = true → Inv vs σ fs → pyExec lits fuel σ blk = .ok out →
       ∃ out', cExec lits fuel fs (annotV vs blk) = .ok out' ∧ RelOut (afterB vs blk) out out')
     (hok : scopeOK lits ([] :: vs) b = true) (hi : Inv vs σ fs) (hp : pyExec lits fuel σ b = .ok out) :
-    ∃ out', popOut (cExec lits fuel ([] :: fs) (annotV ([] :: vs) b)) = .ok out' ∧ RelOut vs out out' := by
+    ∃ out', popOut (cExec lits fuel ([] :: fs) (annotV ([] :: vs) b)) = .ok out' ∧ RelOutX vs out out' := by
   obtain ⟨o', hc, hr⟩ := ih ([] :: vs) σ ([] :: fs) b out hok hi.push hp
   obtain ⟨f', hf'⟩ := afterB_tail b [] vs
   rw [hf'] at hr
@@ -549,11 +615,23 @@ theorem block_step (lits : Lits) {fuel : Nat} {vs : VStack} {σ : Store} {fs : F
   | normal σ' =>
     cases o' with
     | normal fs' => exact ⟨.normal fs'.tail, by simp [hc, popOut], Inv.pop hr⟩
-    | returned _ => cases hr
+    | _ => cases hr
   | returned a =>
     cases o' with
-    | normal _ => cases hr
     | returned b => exact ⟨.returned b, by simp [hc, popOut], hr⟩
+    | _ => cases hr
+  | broke σ' =>
+    cases o' with
+    | broke fs' =>
+      obtain ⟨vs'', ht, hinv⟩ := hr
+      exact ⟨.broke fs'.tail, by simp [hc, popOut], inv_pop_tail ht hinv⟩
+    | _ => cases hr
+  | continued σ' =>
+    cases o' with
+    | continued fs' =>
+      obtain ⟨vs'', ht, hinv⟩ := hr
+      exact ⟨.continued fs'.tail, by simp [hc, popOut], inv_pop_tail ht hinv⟩
+    | _ => cases hr
 
 theorem sim (lits : Lits) : ∀ fuel,
     (∀ vs σ fs blk out, scopeOK lits vs blk = true → Inv vs σ fs → pyExec lits fuel σ blk = .ok out →
@@ -597,20 +675,34 @@ theorem sim (lits : Lits) : ∀ fuel,
           rw [hs] at hp
           obtain ⟨a, r, o1', hann, hr, hcs, hrel⟩ := ihS vs σ fs s rest o1 hok hi hs
           have hokr : scopeOK lits (afterS vs s) rest = true := by
-            cases s <;> simp only [scopeOK, Bool.and_eq_true] at hok <;> simp only [afterS] <;> first | exact hok.2 | exact hok.2
+            cases s <;> simp only [scopeOK, Bool.and_eq_true] at hok <;> simp only [afterS] <;> first | exact hok.2 | exact hok
           cases o1 with
           | returned x =>
             cases hp
             cases o1' with
-            | normal _ => cases hrel
             | returned y => exact ⟨.returned y, by simp [hann, cExec, hcs], hrel⟩
+            | _ => cases hrel
           | normal σ1 =>
             simp only at hp
             cases o1' with
-            | returned _ => cases hrel
             | normal fs1 =>
               obtain ⟨o2, hc2, hr2⟩ := ihB (afterS vs s) σ1 fs1 rest out hokr hrel hp
               exact ⟨o2, by simp [hann, cExec, hcs, hr, hc2], by simpa [afterB] using hr2⟩
+            | _ => cases hrel
+          | broke σ1 =>
+            cases hp
+            cases o1' with
+            | broke fs1 =>
+              obtain ⟨vs'', ht, hinv⟩ := hrel
+              exact ⟨.broke fs1, by simp [hann, cExec, hcs], ⟨vs'', by simp only [afterB]; rw [afterB_tl]; exact ht, hinv⟩⟩
+            | _ => cases hrel
+          | continued σ1 =>
+            cases hp
+            cases o1' with
+            | continued fs1 =>
+              obtain ⟨vs'', ht, hinv⟩ := hrel
+              exact ⟨.continued fs1, by simp [hann, cExec, hcs], ⟨vs'', by simp only [afterB]; rw [afterB_tl]; exact ht, hinv⟩⟩
+            | _ => cases hrel
     · -- statements
       intro vs σ fs s rest out hok hi hp
       cases s with
@@ -698,14 +790,21 @@ theorem sim (lits : Lits) : ∀ fuel,
                 | returned x =>
                   cases hp
                   cases ob' with
-                  | normal _ => cases hrb
                   | returned y =>
                     exact ⟨.returned y, by simp [annotV], by simp [afterS], by simp [cStmt, hce, Val.repr, hcb], hrb⟩
-                | normal σ1 =>
-                  simp only at hp
+                  | _ => cases hrb
+                | broke σ1 =>
+                  cases hp
                   cases ob' with
-                  | returned _ => cases hrb
-                  | normal fs1 =>
+                  | broke fs1 =>
+                    exact ⟨.normal fs1, by simp [annotV], by simp [afterS], by simp [cStmt, hce, Val.repr, hcb],
+                      by simpa [afterS, RelOut, RelOutX] using hrb⟩
+                  | _ => cases hrb
+                | normal σ1 | continued σ1 =>
+                  simp only at hp
+                  cases ob' <;> try (exact False.elim hrb)
+                  all_goals
+                    rename_i fs1
                     have hokw : scopeOK lits vs (.cons (.while_ c body) rest) = true := by
                       simp only [scopeOK, Bool.and_eq_true]; exact hok
                     obtain ⟨a2, r2, o2, hann2, _, hc2, hr2⟩ := ihS vs σ1 fs1 (.while_ c body) rest out hokw hrb hp
@@ -739,6 +838,12 @@ theorem sim (lits : Lits) : ∀ fuel,
                 exact ⟨.forRange v name b0 s0 t0 (annotV ([] :: [v] :: vs) body), annotV vs rest, o', by simp [annotV], by simp [afterS],
                   by simp [cStmt, hcb, Val.repr, hc], by simpa [afterS] using hr⟩
               · cases hp
+      | brk =>
+        simp only [pyStmt] at hp; cases hp
+        exact ⟨.brk, annotV vs rest, .broke fs, by simp [annotV], by simp [afterS], by simp [cStmt], ⟨vs, by simp [afterS], hi⟩⟩
+      | cont =>
+        simp only [pyStmt] at hp; cases hp
+        exact ⟨.cont, annotV vs rest, .continued fs, by simp [annotV], by simp [afterS], by simp [cStmt], ⟨vs, by simp [afterS], hi⟩⟩
     · -- arms
       intro vs σ fs arms els out hoka hoke hi hp
       cases arms with
@@ -756,10 +861,10 @@ theorem sim (lits : Lits) : ∀ fuel,
             cases bb with
             | true =>
               obtain ⟨o', hc, hr⟩ := block_step lits ihB hoka.2 hi hp
-              exact ⟨o', by simp [annotVArms, cArms, hce, Val.repr, hc], hr⟩
+              exact ⟨o', by simp [annotVArms, cArms, hce, Val.repr, hc], hr.weaken⟩
             | false =>
               obtain ⟨o', hc, hr⟩ := block_step lits ihB hoke hi hp
-              exact ⟨o', by simp [annotVArms, cArms, hce, Val.repr, hc], hr⟩
+              exact ⟨o', by simp [annotVArms, cArms, hce, Val.repr, hc], hr.weaken⟩
       | more c b rest =>
         simp only [armsOK, Bool.and_eq_true] at hoka
         simp only [pyArms] at hp
@@ -774,7 +879,7 @@ theorem sim (lits : Lits) : ∀ fuel,
             cases bb with
             | true =>
               obtain ⟨o', hc, hr⟩ := block_step lits ihB hoka.1.2 hi hp
-              exact ⟨o', by simp [annotVArms, cArms, hce, Val.repr, hc], hr⟩
+              exact ⟨o', by simp [annotVArms, cArms, hce, Val.repr, hc], hr.weaken⟩
             | false =>
               obtain ⟨o', hc, hr⟩ := ihA vs σ fs rest els out hoka.2 hoke hi hp
               exact ⟨o', by simp [annotVArms, cArms, hce, Val.repr, hc], hr⟩
@@ -805,17 +910,23 @@ theorem sim (lits : Lits) : ∀ fuel,
             | returned x =>
               cases hp
               cases ob' with
-              | normal _ => cases hrb
               | returned y => exact ⟨.returned y, by simp only [cFor, hcs, hlt, decide_true, b2i, ↓reduceIte, hcb]; simp [popOut], hrb⟩
-            | normal σ1 =>
-              simp only at hp
+              | _ => cases hrb
+            | broke σ1 =>
+              cases hp
               cases ob' with
-              | returned _ => cases hrb
-              | normal fs1 =>
+              | broke fs1 =>
+                exact ⟨.normal fs1.tail, by simp only [cFor, hcs, hlt, decide_true, b2i, ↓reduceIte, hcb]; simp [popOut], Inv.pop hrb⟩
+              | _ => cases hrb
+            | normal σ1 | continued σ1 =>
+              simp only at hp
+              cases ob' <;> try (exact False.elim hrb)
+              all_goals
+                rename_i fs1
                 have hinv1 : Inv ([v] :: vs) σ1 fs1 := hrb
                 obtain ⟨st1, fs0', hfs1, hfr1, _⟩ := shape_cons_inv hinv1.shape
                 subst hfs1
-                have hpres : ∀ x, x ∉ writes body → σ1.get x = (σ.put v cur).get x := (py_preserve lits fuel).1 _ body σ1 hb
+                have hpres : ∀ x, x ∉ writes body → σ1.get x = (σ.put v cur).get x := (py_preserve lits fuel).1 _ body _ σ1 hb rfl
                 have hfixl : ∀ x ∈ loopFixed lits v s0 t0, x ∉ writes body := by
                   simp only [List.all_eq_true] at hfix
                   intro x hx hmem
@@ -842,10 +953,12 @@ theorem sim (lits : Lits) : ∀ fuel,
                   simpa [Val.repr] using expr_agree lits hinv1 (exprOK_mono lits [v] ht0) hpt'
                 have hset : Frames.set (st1 :: fs0') v (cur + ti) = some (st1.put v (cur + ti) :: fs0') := by simp [Frames.set, hst1]
                 have hgv1 : Frames.get (st1 :: fs0') v = some cur := by simp [Frames.get, hst1]
+                have hnext : cForNext lits (st1 :: fs0') v t0 = .ok (st1.put v (cur + ti) :: fs0') := by
+                  simp only [cForNext, hgv1, hct, h32, ↓reduceIte, hset]
                 obtain ⟨o2, hc2, hr2⟩ := ihF vs σ1 (st1.put v (cur + ti)) fs0' v name (cur + ti) si ti s0 t0 body out (by simpa using Inv.pop hinv1)
                   (frameOK_put hfr1 (by simp [hst1]) _) (Store.get_put_same _ _ _) hvis hlit hreg hcond h32 hs0 ht0 hps' hpt' hfix hokb hp
                 exact ⟨o2, by
-                  simp only [cFor, hcs, hlt, decide_true, b2i, ↓reduceIte, hcb, hgv1, hct, h32, hset]
+                  simp only [cFor, hcs, hlt, decide_true, b2i, ↓reduceIte, hcb, hnext]
                   simpa using hc2, hr2⟩
         · simp only [h32] at hp; cases hp
       · simp only [hlt, ↓reduceIte] at hp
@@ -1027,6 +1140,14 @@ theorem annotD_eq : ∀ (b : Block) (d : List (Scope × Var)) (k : Nat) (s : Sco
     simp only [annotD, annotV, afterB, afterS]
     exact ⟨by rw [h1], h2, h3⟩
   | .cons (.aug v name op e) rest, d, k, s, vs, hr, hf => by
+    obtain ⟨h1, h2, h3⟩ := annotD_eq rest d k s vs hr hf
+    simp only [annotD, annotV, afterB, afterS]
+    exact ⟨by rw [h1], h2, h3⟩
+  | .cons .brk rest, d, k, s, vs, hr, hf => by
+    obtain ⟨h1, h2, h3⟩ := annotD_eq rest d k s vs hr hf
+    simp only [annotD, annotV, afterB, afterS]
+    exact ⟨by rw [h1], h2, h3⟩
+  | .cons .cont rest, d, k, s, vs, hr, hf => by
     obtain ⟨h1, h2, h3⟩ := annotD_eq rest d k s vs hr hf
     simp only [annotD, annotV, afterB, afterS]
     exact ⟨by rw [h1], h2, h3⟩
